@@ -7,27 +7,40 @@ from vlib.common import Report, Violation, HarnessError
 QUICK_BOUNDS = [(1, 3, 1, 1), (2, 2, 1, 1), (3, 1, 1, 1), (2, 2, 2, 1)]
 THOROUGH_BOUNDS = [(1, 4, 3, 2), (2, 2, 2, 2), (2, 3, 1, 1), (3, 1, 2, 1)]
 HUGE_BOUNDS = [(3, 2, 1, 1)]      # 2.0e6 states, ~10 min: C02 and C08 thorough only
+# the same exploration with the bar heights passed as other numeric types (bounds, codec)
+QUICK_CODECS = [((2, 2, 1, 1), 'float-cm'), ((2, 2, 1, 1), 'decimal-cm'), ((1, 3, 1, 1), 'float-cm')]
+THOROUGH_CODECS = [((2, 2, 2, 1), 'float-cm'), ((2, 2, 2, 1), 'decimal-cm'), ((2, 2, 1, 1), 'decimal-mm'), ((1, 4, 3, 2), 'float-cm'), ((3, 1, 1, 1), 'float-cm'),
+                   ((2, 3, 1, 1), 'float-cm')]
 
 
-def explore(rep, want, bounds_list, prefixes, max_states=None):
+def explore_codecs(rep, want, tier, prefixes):
+    for bt, codec in (QUICK_CODECS if tier == 'quick' else THOROUGH_CODECS):
+        explore(rep, want, [bt], prefixes, codec=codec)
+
+
+def explore(rep, want, bounds_list, prefixes, max_states=None, codec=None):
     """prefixes: violation signature prefixes that belong to this property"""
     tot = dict(states=0, transitions=0, calls=0, accepted=0, refused=0, lockstep=0, fringe_calls=0,
                core_states=0, terminal_states=0, card_groups=0, monitors=0, queries=0, impure_queries=0)
     phases = {}
     for bt in bounds_list:
         t0 = time.time()
-        ex = hjmc.Explorer(hjmc.Bounds(*bt), want=want, max_states=max_states).run()
+        hjmc.set_codec(codec)
+        try:
+            ex = hjmc.Explorer(hjmc.Bounds(*bt), want=want, max_states=max_states).run()
+        finally:
+            hjmc.set_codec(None)
         for k in tot:
             tot[k] += ex.stats.get(k, 0)
         for k, v in ex.states_by_phase.items():
             phases[k] = phases.get(k, 0) + v
-        rep.part('bfs %s' % (hjmc.Bounds(*bt),), wall_s=round(time.time() - t0, 1), capped=ex.capped,
+        rep.part('bfs %s%s' % (hjmc.Bounds(*bt), ' heights passed as %s' % codec if codec else ''), wall_s=round(time.time() - t0, 1), capped=ex.capped,
                  states_by_phase=ex.states_by_phase, **{k: ex.stats.get(k, 0) for k in tot}, depth=ex.stats['depth'])
         if ex.capped:
             rep.coverage.setdefault('caps_hit', []).append('state cap %s at bounds %s' % (max_states, bt))
         for sig, hist, msg in ex.viol:
             if sig.startswith(tuple(prefixes)):
-                rep.add_violation(Violation(sig, dict(bounds=list(bt), history=hjmc.fmt_hist(hist)), msg))
+                rep.add_violation(Violation(sig + (':heights-as-%s' % codec if codec else ''), dict(bounds=list(bt), history=hjmc.fmt_hist(hist), **({'codec': codec} if codec else {})), msg))
         for s in ex.samples:
             rep.sample(dict(bounds=list(bt), history=s))
     c = rep.coverage
@@ -47,7 +60,7 @@ def explore(rep, want, bounds_list, prefixes, max_states=None):
     c['distinct_nontrivial'] = c.get('distinct_nontrivial', 0) + tot['states']
     # vacuity guards
     for ph in ('scheduled', 'started', 'jumpoff', 'won', 'finished', 'drawn'):
-        if not phases.get(ph):
+        if not phases.get(ph) and codec is None:
             raise HarnessError('vacuous exploration: competition state %r never reached' % ph)
     return tot
 
@@ -81,6 +94,7 @@ def replay_history(rec, want):
     comp, model = hjmc.new_comp(), hjmc.Model()
     RuleViolation = hjmc.RV()
     longc = 'competition' in case
+    hjmc.set_codec(case.get('codec'))
     if longc:
         from decimal import Decimal
         from data import hj_cards
